@@ -1,4 +1,5 @@
 import CbModel.Cleanup
+import CbModel.CleanupCompound
 import CbModel.Sexp
 import Driver.Proto
 namespace Driver
@@ -30,7 +31,9 @@ def showEv : Ev → String
 def showSig : Sig → String
   | .norm => "norm" | .ret => "ret" | .brk => "brk" | .cont => "cont" | .oof => "oof"
 
-/-- field: (funcs (f stmt...) (f stmt...) ...) ; output: sig, mechanism events, spec events, depths -/
+/-- field: (funcs (f stmt...) (f stmt...) ...) ; output: sig, mechanism events, spec events, depths,
+    `expand` of the spec events (what is expected when objects are rendered in compound forms, CbModel/CleanupCompound.lean),
+    whether every object id is in 1..99 (hypothesis of the compound-object theorem) -/
 def c06Line (fs : List (List Char)) : String :=
   match fs with
   | [src] =>
@@ -41,7 +44,8 @@ def c06Line (fs : List (List Char)) : String :=
         let (sg, st) := run funcs 400
         let (sg2, evs) := srun funcs 400
         String.intercalate "\t" [showSig sg, String.intercalate " " (st.out.map showEv), showSig sg2,
-          String.intercalate " " (evs.map showEv), toString st.D.length, toString st.X.length]
+          String.intercalate " " (evs.map showEv), toString st.D.length, toString st.X.length,
+          String.intercalate " " ((expand evs).map showEv), if idsOk funcs then "1" else "0"]
       | none => "bad-op"
     | _ => "bad-op"
   | _ => "bad-op"
